@@ -88,8 +88,12 @@ def add_random_props(rng, c, kind):
                 k = rng.choice(['date', 'naive', 'utc', 'zoned'])
                 c.add(r, [rand_dt(rng, k) for _ in range(rng.randint(1, 3))])
             elif r == 'rrule':
-                c.add(r, {'freq': [rng.choice(['DAILY', 'WEEKLY', 'MONTHLY', 'YEARLY'])], 'count': [rng.randint(1, 9)],
-                          'byday': [rng.choice(['MO', 'TU', '-1SU', '2FR'])]})
+                if rng.random() < 0.35:       # rule parts given as scalars (the writer wraps them; the caller's rule must stay as given)
+                    c.add(r, {'freq': rng.choice(['DAILY', 'WEEKLY', 'MONTHLY', 'YEARLY']), 'count': rng.randint(1, 9),
+                              'interval': rng.choice([1, 2, 0]), 'byday': rng.choice(['MO', '-1SU'])})
+                else:
+                    c.add(r, {'freq': [rng.choice(['DAILY', 'WEEKLY', 'MONTHLY', 'YEARLY'])], 'count': [rng.randint(1, 9)],
+                              'byday': [rng.choice(['MO', 'TU', '-1SU', '2FR'])]})
             elif r in ('dtstamp', 'created', 'last-modified'):
                 if r.upper() not in c:
                     c.add(r, rand_dt(rng, rng.choice(['naive', 'utc', 'zoned'])))
